@@ -328,6 +328,26 @@ def defaults_snapshot():
     out["<numpy.printoptions>"] = snapshot({k: repr(v) for k, v in _np.get_printoptions().items()})
     out["<pandas.mode.copy_on_write / chained_assignment>"] = snapshot({k: repr(_pd.get_option(k)) for k in ("mode.chained_assignment",)})
     out["<recursionlimit>"] = sys.getrecursionlimit()
+    # every registered pandas option and every matplotlib rcParam (a style or option set for one call must not outlive it)
+    try:
+        opts = {}
+        from pandas._config import config as _cfg
+        for k in sorted(_cfg._registered_options):
+            try:
+                opts[k] = repr(_pd.get_option(k))
+            except Exception:  # noqa
+                pass
+        out["<pandas.options>"] = snapshot(opts)
+    except Exception as e_:  # noqa
+        out["<pandas.options>"] = f"unavailable: {e_!r}"
+    try:
+        import matplotlib as _mpl
+        import warnings as _w
+        with _w.catch_warnings():
+            _w.simplefilter("ignore")
+            out["<matplotlib.rcParams>"] = snapshot({k: repr(v) for k, v in _mpl.rcParams.items() if k not in ("backend", "backend_fallback")})
+    except Exception as e_:  # noqa
+        out["<matplotlib.rcParams>"] = f"unavailable: {e_!r}"
     return out
 
 
